@@ -326,6 +326,9 @@ func (c *Client) Send(packet stanza.Packet) error {
 			c.Session.SMState.UnAckQueue.Push(&toStore)
 		}
 	}
+	if verifEnabled {
+		vpoint("send.prewrite")
+	}
 
 	return c.sendWithWriter(c.transport, data)
 }
@@ -346,6 +349,9 @@ func (c *Client) SendIQ(ctx context.Context, iq *stanza.IQ) (chan stanza.IQ, err
 	if err := c.Send(iq); err != nil {
 		return nil, err
 	}
+	if verifEnabled {
+		vpoint("sendiq.written", "id", iq.Attrs.Id)
+	}
 	return c.router.NewIQResultRoute(ctx, iq.Attrs.Id), nil
 }
 
@@ -365,6 +371,9 @@ func (c *Client) SendRaw(packet string) error {
 		toStore := stanza.UnAckedStz{Stz: packet}
 		c.Session.SMState.UnAckQueue.Push(&toStore)
 	}
+	if verifEnabled {
+		vpoint("sendraw.prewrite")
+	}
 	return c.sendWithWriter(c.transport, []byte(packet))
 }
 
@@ -383,6 +392,9 @@ func (c *Client) recv(keepaliveQuit chan<- struct{}) {
 
 	for {
 		val, err := stanza.NextPacket(c.transport.GetDecoder())
+		if verifEnabled {
+			vpoint("recv.next", "err", err != nil)
+		}
 		if err != nil {
 			c.ErrorHandler(err)
 			c.disconnected(c.Session.SMState)
@@ -415,6 +427,9 @@ func (c *Client) recv(keepaliveQuit chan<- struct{}) {
 		default:
 			c.Session.SMState.Inbound++
 		}
+		if verifEnabled {
+			vpoint("recv.classified", "name", val.Name(), "inbound", c.Session.SMState.Inbound)
+		}
 		// Do normal route processing in a go-routine so we can immediately
 		// start receiving other stanzas. This also allows route handlers to
 		// send and receive more stanzas.
@@ -430,13 +445,25 @@ func keepalive(transport Transport, interval time.Duration, quit <-chan struct{}
 	for {
 		select {
 		case <-ticker.C:
+			if verifEnabled {
+				vpoint("ka.tick")
+			}
 			if err := transport.Ping(); err != nil {
+				if verifEnabled {
+					vpoint("ka.pingfail")
+				}
 				// When keepalive fails, we force close the transport. In all cases, the recv will also fail.
 				ticker.Stop()
 				_ = transport.Close()
+				if verifEnabled {
+					vpoint("ka.closed")
+				}
 				return
 			}
 		case <-quit:
+			if verifEnabled {
+				vpoint("ka.quit")
+			}
 			ticker.Stop()
 			return
 		}
